@@ -5,6 +5,8 @@ package main
 //
 //	<tr> = grpc | http (security.AuthContext with a gRPC context / with an *http.Request)
 //	authn oidc <tr> <td> <expected audiences> <hdrform> <tokkind> <sub> <audkind> <aud>
+//	mesh <td>   the trust domain of the mesh config changes: every later line of the case - whatever trust domain its
+//	      authenticator was constructed with - must produce identities of THIS trust domain
 //	      real NewJwtAuthenticator against an in-process JWKS endpoint; tokens minted with go-jose.
 //	      hdrform: none bearer istio basic bb (Basic, Bearer tok) two (Bearer other, Bearer tok) two2 (Bearer tok, Bearer other); tokkind: garbage expired wrongiss otherkey ok okfloat expiredfloat (fractional exp); audkind: list string absent
 //	authn kube <tr> <td> <primary> <aliases a=b,..> <remotes|nil> <clusterid hdr|-> <hdrform> <token> <TokenAudiences> <review>
@@ -67,12 +69,18 @@ type oidcFixture struct {
 	srv      *httptest.Server
 	key      jose.JSONWebKey
 	otherKey jose.JSONWebKey
-	auths    map[string]*authenticate.JwtAuthenticator // by td + audiences
-	tokens   map[string]string                         // minted tokens by claim content
+	auths    map[string]*oidcAuth // by td + audiences
+	tokens   map[string]string    // minted tokens by claim content
+}
+
+// oidcAuth: a real JwtAuthenticator and the (real, settable) mesh watcher it was constructed with.
+type oidcAuth struct {
+	auth    *authenticate.JwtAuthenticator
+	watcher meshwatcher.TestWatcher
 }
 
 func newOIDCFixture() *oidcFixture {
-	f := &oidcFixture{auths: map[string]*authenticate.JwtAuthenticator{}, tokens: map[string]string{}}
+	f := &oidcFixture{auths: map[string]*oidcAuth{}, tokens: map[string]string{}}
 	// go-oidc accepts RS256 only unless configured otherwise
 	k1, _ := rsa.GenerateKey(rand.Reader, 2048)
 	k2, _ := rsa.GenerateKey(rand.Reader, 2048)
@@ -95,20 +103,25 @@ func newOIDCFixture() *oidcFixture {
 	return f
 }
 
-func (f *oidcFixture) authenticator(td string, auds []string) (*authenticate.JwtAuthenticator, error) {
+// authenticator returns the authenticator CONSTRUCTED under trust domain `td`; the mesh config it watches then
+// says `now` (the same unless a `mesh` op changed the trust domain since).
+func (f *oidcFixture) authenticator(td, now string, auds []string) (*authenticate.JwtAuthenticator, error) {
 	key := td + "\x00" + strings.Join(auds, "\x00")
 	if a, ok := f.auths[key]; ok {
-		return a, nil
+		a.watcher.Set(&meshconfig.MeshConfig{TrustDomain: now})
+		return a.auth, nil
 	}
 	rule := &v1beta1.JWTRule{Issuer: f.srv.URL, JwksUri: f.srv.URL, Audiences: auds}
 	if len(td)%2 == 0 {
 		rule.JwksUri = "" // the other branch of NewJwtAuthenticator: OIDC discovery at the issuer
 	}
-	a, err := authenticate.NewJwtAuthenticator(rule, meshwatcher.NewTestWatcher(&meshconfig.MeshConfig{TrustDomain: td}))
+	w := meshwatcher.NewTestWatcher(&meshconfig.MeshConfig{TrustDomain: td})
+	a, err := authenticate.NewJwtAuthenticator(rule, w)
 	if err != nil {
 		return nil, err
 	}
-	f.auths[key] = a
+	f.auths[key] = &oidcAuth{auth: a, watcher: w}
+	w.Set(&meshconfig.MeshConfig{TrustDomain: now})
 	return a, nil
 }
 
@@ -172,9 +185,10 @@ func (f *oidcFixture) token0(kind, sub, audKind string, aud []string) (string, e
 
 // ---------------------------------------------------------------- kube JWT fixture
 
+// meshHolder is a mesh config whose trust domain can change after an authenticator was constructed with it.
 type meshHolder struct{ td string }
 
-func (m meshHolder) Mesh() *meshconfig.MeshConfig { return &meshconfig.MeshConfig{TrustDomain: m.td} }
+func (m *meshHolder) Mesh() *meshconfig.MeshConfig { return &meshconfig.MeshConfig{TrustDomain: m.td} }
 
 type reviewSpec struct {
 	apiErr        bool
@@ -351,11 +365,21 @@ func chainsFromTok(tok string) ([][]*x509.Certificate, error) {
 type authnSUT struct {
 	oidc *oidcFixture
 	pki  *pkiFixture
+	mesh *string // the trust domain a `mesh` op of the current case set (nil: none yet)
+}
+
+// tdNow: the trust domain of the mesh config at the time of the request.
+func (s *authnSUT) tdNow(constructed string) string {
+	if s.mesh != nil {
+		return *s.mesh
+	}
+	return constructed
 }
 
 func newAuthnSUT() *authnSUT { return &authnSUT{} }
 
 type authnResult struct {
+	bundleErr bool // the SPIFFE bundle of a federated trust domain was refused: istiod does not start
 	rejected bool // the TLS handshake was refused: there is no request
 	crash  bool
 	caller *security.Caller
@@ -368,6 +392,8 @@ func (r authnResult) format() string {
 	switch {
 	case r.fixErr != nil:
 		return "fixture-failed " + wire.Enc(r.fixErr.Error())
+	case r.bundleErr:
+		return "bundle-err"
 	case r.rejected:
 		return "reject"
 	case r.crash:
@@ -384,6 +410,7 @@ func (r authnResult) format() string {
 
 // prepared is a real authenticator plus the transport-level ingredients of the request it is to see.
 type prepared struct {
+	bundleErr bool
 	rejected bool
 	auth     security.Authenticator
 	http     bool
@@ -437,7 +464,7 @@ func (s *authnSUT) prepare(f []string) (*prepared, error) {
 		if s.oidc == nil {
 			s.oidc = newOIDCFixture()
 		}
-		a, err := s.oidc.authenticator(wire.Dec(f[2]), wire.DecList(f[3]))
+		a, err := s.oidc.authenticator(wire.Dec(f[2]), s.tdNow(wire.Dec(f[2])), wire.DecList(f[3]))
 		if err != nil {
 			return nil, err
 		}
@@ -477,7 +504,9 @@ func (s *authnSUT) prepare(f []string) (*prepared, error) {
 			getter = g
 		}
 		security.TokenAudiences = wire.DecList(f[9])
-		p.auth = kubeauth.NewKubeJWTAuthenticator(meshHolder{wire.Dec(f[2])}, scriptedClient("primary", review, p.via, wire.Dec(f[8]), wire.DecList(f[9])), cluster.ID(wire.Dec(f[3])), aliases, getter)
+		holder := &meshHolder{td: wire.Dec(f[2])}
+		p.auth = kubeauth.NewKubeJWTAuthenticator(holder, scriptedClient("primary", review, p.via, wire.Dec(f[8]), wire.DecList(f[9])), cluster.ID(wire.Dec(f[3])), aliases, getter)
+		holder.td = s.tdNow(holder.td) // the mesh config may have changed since the authenticator was constructed
 		if f[6] != "-" {
 			p.md["clusterid"] = wire.DecList(f[6])
 		}
@@ -535,7 +564,7 @@ func (s *authnSUT) prepare(f []string) (*prepared, error) {
 		if err != nil {
 			return nil, err
 		}
-		p.rejected = rej
+		p.rejected = rej || p.bundleErr
 	default:
 		return nil, errors.New("unknown authenticator " + f[0])
 	}
@@ -575,18 +604,26 @@ func (s *authnSUT) run(f []string) (res authnResult) {
 		return authnResult{fixErr: err}
 	}
 	if p.rejected {
-		return authnResult{rejected: true}
+		return authnResult{rejected: true, bundleErr: p.bundleErr}
 	}
 	c, err := p.auth.Authenticate(p.authContext())
 	return authnResult{caller: c, err: err, via: *p.via}
 }
 
 func (s *authnSUT) apply(f []string) string {
-	if f[0] == "case" {
+	switch f[0] {
+	case "case":
+		s.mesh = nil
 		return "ok"
+	case "mesh":
+		if len(f) != 2 {
+			return "bad-op"
+		}
+		td := wire.Dec(f[1])
+		s.mesh = &td
+		return "mesh-ok"
+	case "authn":
+		return s.run(f).format()
 	}
-	if f[0] != "authn" {
-		return "bad-op"
-	}
-	return s.run(f).format()
+	return "bad-op"
 }
